@@ -302,8 +302,11 @@ def run_check(mod, tier, seed, replay=None):
         cases = list(cases)
         lines, idx = [], []
         for i, c in enumerate(cases):
-            if proof["driver_ok"] and c.get("op") in getattr(mod, "MODEL_OPS", ()):
-                lines.append(canon(dict(mod.model_request(c) if hasattr(mod, "model_request") else c, p=pid)))
+            if not proof["driver_ok"]:
+                continue
+            req = mod.model_request(c) if hasattr(mod, "model_request") else c
+            if req is not None and req.get("op") in getattr(mod, "MODEL_OPS", ()):
+                lines.append(canon(dict(req, p=pid)))
                 idx.append(i)
         replies = {}
         if lines:
